@@ -680,6 +680,40 @@ def dtype_cause(case, symptom):
     return None
 
 
+def concat_empty_class(case):
+    """names the two open findings about EMPTY selections of the concatenated indexer precisely, so that they do not
+    hide other failures on empty selections:
+      tail(empty)        F10b: slice / mask head and a tail axis on which nothing is selected (reshape(-1, 0))
+      head_slice(empty)  F10:  forward head slice selecting nothing whose start lies in a LATER indexer than its stop
+    anything else on an empty selection gets its own cause"""
+    init = first_stage_shape(case)
+    if init is None:
+        return None
+    index = list(case['index'])[:len(init)]
+    index += [('s', None, None, None)] * (len(init) - len(index))
+    head, tails = index[0], index[1:]
+    try:
+        tail_lens = [len(np_resolve(n, ix)[0]) for n, ix in zip(init[1:], tails) if ix[0] != 'i']
+    except Exception:
+        return None
+    if 0 in tail_lens:
+        return 'tail(empty)' if head[0] in 'sm' else 'tail(empty,head=%s)' % head[0]
+    if head[0] == 's' and (head[3] or 1) > 0:
+        start, stop, step = slice(head[1], head[2], head[3]).indices(init[0])
+        if len(range(start, stop, step)) == 0:
+            lens = []
+            for p in case['parts']:
+                try:
+                    lens.append(len(np_resolve(p['shape'][0], p['keep'][0])[0]) if p['keep'] else p['shape'][0])
+                except Exception:
+                    return None
+            lens = [n for n in lens if n] or lens[:1]
+            starts = np.cumsum([0] + lens[:-1])
+            ia, ib = starts.searchsorted(start, side='right') - 1, starts.searchsorted(stop, side='right') - 1
+            return 'head_slice(empty)' if ia > ib else 'head_slice(empty,forward)'
+    return None
+
+
 def cause_of(case, symptom, spec):
     f = features(case)
     for x in f:
@@ -699,11 +733,9 @@ def cause_of(case, symptom, spec):
     if dc and not (symptom == 'raises' and spec[0] == 'ok' and 0 in spec[2]):
         return dc
     if case['kind'] == 'concat' and symptom == 'raises' and spec[0] == 'ok':
-        if 0 in spec[2][1:] or (case['index'] and case['index'][0][0] != 'i' and 0 in spec[2]
-                                and len(spec[2]) > 1 and 0 in spec[2][1:]):
-            return 'tail(empty)'
-        if 'head_slice' in f and spec[2] and spec[2][0] == 0:
-            return 'head_slice(empty)'
+        ec = concat_empty_class(case)
+        if ec:
+            return ec
     if kt and symptom == 'raises':
         return kt
     kinds = ','.join(ix[0] for ix in case['index'])
@@ -731,6 +763,23 @@ def scalar_bytes(case):
 
 def nowidth(x):
     return x[:1] + [100] + x[2:] if len(x) > 1 and x[0] == 'ok' and x[1] > 100 else x
+
+
+def chain_invalid(case):
+    """documented restriction on a transform chain: it may only add or drop dimensions at the END of the first-stage
+    shape and must keep at least the first dimension; True when the chain of the case violates it (then
+    InvalidTransform at construction is the documented answer), None when the first stage does not exist"""
+    init = case.get('init') or first_stage_shape(case)
+    if init is None:
+        return None
+    new = list(init)
+    for t in case['ts']:
+        if t[0] == 'drop':
+            new = new[:-1]
+        elif t[0] == 'add':
+            new = new + [1]
+    head = new[:len(init)]
+    return not (len(head) > 0 and head == list(init)[:len(head)])
 
 
 def part_chains(case):
@@ -762,8 +811,9 @@ def judge(ctx, case, impl, mo):
     if not stage1_exists(case):
         # source[first stage] does not exist (numpy raises): nothing is promised; only the tie is checked
         spec = None
-    elif out == ['err', 'InvalidTransform:init']:
-        # a chain that drops every axis is documented as invalid: correct rejection (the tie checks the model agrees)
+    elif out == ['err', 'InvalidTransform:init'] and chain_invalid(case) is not False:
+        # a chain that drops every axis is documented as invalid: correct rejection (the tie checks the model agrees);
+        # a VALID chain rejected with InvalidTransform falls through to `init_raises` below
         spec = None
     elif case['kind'] == 'concat' and out == ['err', 'ConcatenationError:init'] and not dtypes_compatible(case):
         # dtypes that are neither all equal nor all byte strings: documented rejection (the tie checks the model agrees)
